@@ -92,6 +92,8 @@ type Case struct {
 	SaveAfter bool `json:"saveAfter,omitempty"`
 	// Stepped: dispatch with claim + dispatchEntry per entry instead of dispatchAvailable.
 	Stepped bool `json:"stepped,omitempty"`
+	// Aged: instead of a program, one entry that already failed many times fails once more (c22_aged_test.go).
+	Aged *Aged `json:"aged,omitempty"`
 }
 
 var names = run.Names{
@@ -169,6 +171,10 @@ func genConfig(t *rapid.T) Config {
 func genCase(t *rapid.T, env *ev.Env) Case {
 	var c Case
 	c.Stack = rapid.SampledFrom([]string{"P2", "P1"}).Draw(t, "stack")
+	if rapid.IntRange(0, 5).Draw(t, "aged") == 4 {
+		c.Aged = genAged(t)
+		return c
+	}
 	maxOps := 16
 	if env.Thorough() {
 		maxOps = 30
@@ -1253,6 +1259,9 @@ func (h *harness) dispatch(step int) {
 // ---- run -------------------------------------------------------------------------------------------
 
 func runCase(env *ev.Env, c Case) (o ev.Outcome) {
+	if c.Aged != nil {
+		return runAged(env, c)
+	}
 	dir := env.TempDir()
 	defer os.RemoveAll(dir)
 	ctx := context.Background()
